@@ -15,7 +15,8 @@ THEOREMS = ["C09_flatten", "C09_flatten_closed_form", "C09_below", "C09_below_pe
             "C09_flatten_linear", "C09_linear_closed_form", "C09_split_flatten_abs",
             "C09_content_ok_bijective", "C09_model_meets_spec_swizzle",
             "C09_flatten_closed_form_fiber", "C09_flatten_wf", "C09_model_meets_spec_flatten_root", "C09_below_wf", "C09_descents_compose", "C09_unflatten_wf",
-            "C09_swap_wf", "C09_unflatten_flatten_fiber", "C09_split_flatten_fiber", "C09_model_meets_spec_proved_ops",
+            "C09_swap_wf", "C09_swap_post", "C09_unflatten_flatten_fiber", "C09_split_flatten_fiber", "C09_sq_sums", "C09_merge_groups", "C09_merge_to_fibertree", "C09_merge_level",
+            "C09_model_meets_spec_proved_ops",
             "C09_order", "C09_oracle_sound", "C09_model_meets_spec_partial"]
 COQ_IMPORTS = "From FT Require Import Model.Base Model.Obs Model.C09Transform Model.C09Check."
 CHECK_VO = ["Model/C09Check.v"]
